@@ -415,12 +415,16 @@ Definition reduce_op (c : cfg) (e : expr) : outcome expr :=
   | ESlotToTime x =>
     s <- expr_into_number 64 x ;;
     if s <? 0 then Err "CoerceError"
-    else d <- chk_i128 "slot_to_time" ((s - cfg_slot c) * 1000) ;;
-         t <- chk_i128 "slot_to_time" (cfg_time c + d) ;; Ok (ENumber t)
+    else (* ops::checked_slot_to_time: every step stays within i128 or the op is refused *)
+      if in_i128 (cfg_time c) && in_i128 ((s - cfg_slot c) * 1000) && in_i128 (cfg_time c + (s - cfg_slot c) * 1000)
+      then Ok (ENumber (cfg_time c + (s - cfg_slot c) * 1000))
+      else Err "CoerceError"
   | ETimeToSlot x =>
     t <- expr_into_number 64 x ;;
     if t <? 0 then Err "CoerceError"
-    else Ok (ENumber (cfg_slot c + Z.quot (t - cfg_time c) 1000))
+    else if in_i128 (cfg_time c) && in_i128 (t - cfg_time c) && in_i128 (cfg_slot c + Z.quot (t - cfg_time c) 1000)
+         then Ok (ENumber (cfg_slot c + Z.quot (t - cfg_time c) 1000))
+         else Err "CoerceError"
   | _ => Ok e
   end.
 
